@@ -2,7 +2,7 @@
    concrete model denote disjoint, aligned address ranges inside the manager blocks of buffers that were not returned. *)
 From Coq Require Import ZArith List Bool Lia.
 From MomoCommon Require Import GenPrelude.
-From C09 Require Gen_MemPool PoolLayout PoolArith PoolConc PoolInv.
+From C09 Require Gen_MemPool PoolLayout PoolArith PoolConc PoolInv PoolCompl.
 Import ListNotations.
 Local Open Scope Z_scope.
 
@@ -150,4 +150,63 @@ Proof.
   split; [apply PoolArith.wrapS8_id; lia|]. intros j Hj.
   split; [lia|]. split; [apply PoolArith.wrapS8_id; lia|]. split; [lia|]. split; [apply PoolArith.wrapS8_id; lia|].
   rewrite (PoolArith.wrapS8_id j) by lia. apply PoolArith.wrapS8_id. lia.
+Qed.
+
+(* ---------- the same statements for ANY state that satisfies the invariant, and hence for the full alphabet ---------- *)
+Lemma count_of_J C w p : PoolInv.J C w ->
+  PoolConc.acount (PoolConc.getp w p) = PoolConc.lenz (PoolConc.live (PoolConc.getp w p)) /\ NoDup (PoolConc.live (PoolConc.getp w p)).
+Proof.
+  intros Jw. apply (PoolInv.J_any C p) in Jw. destruct Jw as (_ & (_ & _ & _ & _ & _ & P6 & _ & _ & P9) & _). split; [exact P9|].
+  unfold PoolInv.lb in P6. apply PoolInv.NoDup_app_iff in P6. tauto.
+Qed.
+
+Theorem end_to_end_state C B A beg w :
+  PoolArith.legal C B A -> PoolInv.J C w ->
+  let size := Gen_MemPool.pvGetBufferSize C B A in
+  (forall b, PoolArith.begin_ok A size (beg b)) ->
+  (forall b b', b <> b' -> ~ In b (PoolConc.returned w) -> ~ In b' (PoolConc.returned w) ->
+     beg b + size <= beg b' \/ beg b' + size <= beg b) ->
+  (forall p, PoolConc.acount (PoolConc.getp w p) = PoolConc.lenz (PoolConc.live (PoolConc.getp w p))) /\
+  forall p bk, In bk (PoolConc.live (PoolConc.getp w p)) ->
+    let a := addr_of C B A beg bk in
+    a mod A = 0 /\ beg (fst bk) <= a /\ a + B <= beg (fst bk) + size /\ ~ In (fst bk) (PoolConc.returned w) /\
+    (forall p' bk', In bk' (PoolConc.live (PoolConc.getp w p')) -> bk' <> bk ->
+       let a' := addr_of C B A beg bk' in a + B <= a' \/ a' + B <= a) /\
+    (forall b' q len, ~ In b' (PoolConc.returned w) -> In (q, len) (meta_of C B A beg b') -> q + len <= a \/ a + B <= q).
+Proof.
+  intros L Jw size Beg Man.
+  split; [intros p; apply (count_of_J C w p Jw)|].
+  assert (forall q k, In k (PoolConc.live (PoolConc.getp w q)) -> 0 <= snd k < C /\ ~ In (fst k) (PoolConc.returned w)) as Fact.
+  { intros q k Hk. pose proof (proj1 (PoolInv.J_any C q w) Jw) as (_ & (_ & P2 & _ & _ & _ & _ & P7 & _) & _).
+    destruct (P7 k) as (r & _ & o); [left; unfold PoolInv.lb; apply in_or_app; left; exact Hk|]. split; [exact r|exact (proj2 (P2 _ o))]. }
+  intros p bk H. cbv zeta. destruct (Fact p bk H) as (R & NR).
+  assert (a_facts : addr_of C B A beg bk mod A = 0 /\ beg (fst bk) <= addr_of C B A beg bk /\ addr_of C B A beg bk + B <= beg (fst bk) + Gen_MemPool.pvGetBufferSize C B A).
+  { unfold addr_of. destruct (PoolArith.newbuffer_layout_thm C B A (beg (fst bk)) L (Beg _)) as (fb & first & buffer & E & _ & _ & _ & G & _).
+    rewrite E. destruct (G (snd bk) R) as (_ & al & lo & hi & _). tauto. }
+  destruct a_facts as (f1 & f2 & f3).
+  split; [exact f1|]. split; [exact f2|]. split; [exact f3|]. split; [exact NR|]. split.
+  - intros p' bk' H' Ne. destruct (Fact p' bk' H') as (R' & NR').
+    destruct (blocks_disjoint C B A beg bk bk' L (Beg _) (Beg _) R R' (not_eq_sym Ne)) as (_ & _ & _ & D); [|exact D].
+    intros Nb. apply Man; assumption.
+  - intros b' q len NR' Hin. apply (block_vs_meta C B A beg bk b' q len L); auto.
+Qed.
+
+(* (3') END TO END over the FULL alphabet: Allocate, Deallocate, MergeFrom, DeallocateAll, Swap, move assignment and DeallocateIf *)
+Theorem end_to_end_full C B A CF uc beg ops :
+  PoolArith.legal C B A ->
+  let size := Gen_MemPool.pvGetBufferSize C B A in
+  let w := PoolCompl.frun C CF uc ops in
+  (forall b, PoolArith.begin_ok A size (beg b)) ->
+  (forall b b', b <> b' -> ~ In b (PoolConc.returned w) -> ~ In b' (PoolConc.returned w) ->
+     beg b + size <= beg b' \/ beg b' + size <= beg b) ->
+  (forall p, PoolConc.acount (PoolConc.getp w p) = PoolConc.lenz (PoolConc.live (PoolConc.getp w p))) /\
+  forall p bk, In bk (PoolConc.live (PoolConc.getp w p)) ->
+    let a := addr_of C B A beg bk in
+    a mod A = 0 /\ beg (fst bk) <= a /\ a + B <= beg (fst bk) + size /\ ~ In (fst bk) (PoolConc.returned w) /\
+    (forall p' bk', In bk' (PoolConc.live (PoolConc.getp w p')) -> bk' <> bk ->
+       let a' := addr_of C B A beg bk' in a + B <= a' \/ a' + B <= a) /\
+    (forall b' q len, ~ In b' (PoolConc.returned w) -> In (q, len) (meta_of C B A beg b') -> q + len <= a \/ a + B <= q).
+Proof.
+  intros L size w Beg Man. assert (1 <= C) as HC by (destruct L; lia).
+  apply end_to_end_state; auto. apply (PoolCompl.JC_all_histories C HC CF uc ops).
 Qed.
